@@ -4,6 +4,7 @@ import RV.C19.Lemmas
   The lemmas are stated for an arbitrary new graph `g'` characterised by membership, so that they
   do not depend on how `Graph.set` / `remove` / `add` are composed.
 -/
+set_option linter.unusedSimpArgs false
 namespace RV.C19
 
 theorem nodup_split {pre post : List Cell} {c x : Term}
